@@ -2,7 +2,7 @@
 """Regenerates DESIGN.md section 10.5 from /verif/seeded/*/meta.json (+ detection.json)."""
 import json, glob, os
 os.chdir(os.path.dirname(os.path.dirname(os.path.abspath(__file__))))
-rows = []; missed = thin = 0
+rows = []; missed = thin = other_only = 0
 for d in sorted(glob.glob('seeded/*')):
     n = os.path.basename(d); m = json.load(open(d + '/meta.json'))
     ran = m.setdefault('ran', {'confirmed': 'tools/seedeval.sh: unedited suite passes with the change; the demonstration fails with it and passes without it',
@@ -10,6 +10,9 @@ for d in sorted(glob.glob('seeded/*')):
     json.dump(m, open(d + '/meta.json', 'w'), indent=1)
     det = json.load(open(d + '/detection.json')) if os.path.exists(d + '/detection.json') else {}
     caught = ', '.join(k for k, v in det.get('results', {}).items() if v['exit'] == 1) or '(see history)'
+    own = m.get('property', '')[:3]
+    if det.get('results') and det['results'].get(own, {}).get('exit') != 1:
+        other_only += 1
     note = ran.get('note', '')
     missed += note.startswith('missed'); thin += note.startswith('caught thinly') or note.startswith('caught at seed')
     need = m.get('needs_to_manifest', '')[:150].replace('|', '/').replace('\n', ' ')
@@ -18,10 +21,15 @@ txt = f'''
 ### 10.5 Seeded changes (independent sub-agents, property text only) and which checks catch them
 
 Each change compiles, keeps the 3542 tests green, and comes with a demonstration that fails with it and
-passes without it (confirmed with `tools/seedeval.sh`). `tools/selftest.sh` re-applies every patch in a
-scratch worktree and runs the quick check of the targeted property (`detection.json`). {len(rows)} changes so far;
-{missed} were missed and {thin} were caught only thinly or seed-dependently by the first version of the checks; after the
-strengthening recorded in the history column all {len(rows)} are detected by the quick check of their own property.
+passes without it (confirmed with `tools/seedeval.sh`). Batches 1-4 were written against the property text alone;
+batches 5-8 ("hard mode") were additionally told what a property-based harness of this kind generates and asked for a
+change it would plausibly miss - the description grew with every batch. `tools/selftest.sh` re-applies every patch
+in a scratch worktree and runs the quick check of the targeted property and of the properties listed under
+`also_check` (`detection.json`). {len(rows)} changes so far; {missed} were missed and {thin} were caught only thinly or
+seed-dependently by the checks as they stood when the change arrived; after the strengthening recorded in the history
+column every change is detected by a quick check: {len(rows) - other_only} by the quick check of the property it was written
+against, {other_only} only by another property's check (changes that are wrong only under concurrency were written
+against sequential properties C04 / C09 / C10 / C12 and are C19's subject).
 
 | change | property | needs in order to manifest (abridged) | caught by (quick) | history |
 |---|---|---|---|---|
@@ -29,9 +37,13 @@ strengthening recorded in the history column all {len(rows)} are detected by the
 
 Lessons that went back into the machinery: pools need *dense local neighbourhoods* (not only far-apart
 random versions), both operands of a comparison have to be unusual at the same time, probes must sit
-textually on bounds, keyword separators need token-level damage, and history independence has to be
-exercised across schemes. Changes that were caught only by another property's check than the one they were
-written against were also made visible to the targeted check (C07, C17).
+textually on bounds, keyword separators need token-level damage, history independence has to be
+exercised across schemes; values that a change special-cases are written in its source (dictionary of literals:
+words, numbers, lengths, operators, CLI words); tables keyed on a hash need colliding and extreme-hash inputs;
+state that builds up needs volume with KEPT objects and re-asked first questions; tables keyed on glued texts
+need twin questions; "atomics only" memo fields need many goroutines inside ONE object; lazy initialisation needs
+processes whose first calls are concurrent; packed keys need every power-of-two band and the boundaries of text
+encodings; new syntax needs the sources' punctuation literals placed around versions.
 '''
 s = open('DESIGN.md').read()
 if '\n### 10.5 Seeded changes' in s:
